@@ -13,7 +13,8 @@ SPEC = {
             "with junk in the low 7 bits of octet 56 and a signature computed over the junk encoding; mixed-order keys A+T; R+T; random strings); non-trivial = every class except 'honest'. "
             "whitebox/*: case = operands of red512/reduceModOrder/calculateS/isLessThanOrder/fixedMult/doubleMult/pointR1.FromBytes and goldilocks Scalar.{FromBytes,Add,Sub,Mul,Neg,Red}/"
             "ScalarBaseMult/ScalarMult/CombinedMult/FromBytes; non-trivial = at least one operand is limb-structured (vlib.Limbs), near the group order, or of the form q*2^252+small / j*L+-small "
-            "(not uniform). Distinct by FNV-64 of (sub-check, class, all byte strings of the case).",
+            "(not uniform); for the encoders (pointR1.ToBytes, goldilocks Point.ToBytes) a point whose x or y has two representatives below the element width. "
+            "concurrent: 8 goroutines x rounds x (verify triples + 2 signatures) compared with the sequential results (counted as evaluations, schedule dependent). Distinct by FNV-64 of (sub-check, class, all byte strings of the case).",
     "assumptions": COMMON_ASSUME + [
         "crypto/ed25519 (Go standard library) is the byte-exact oracle for Ed25519, Ed25519ctx and Ed25519ph key generation and signing",
         "ref/edwards (math/big, written from RFC 8032 5.1/5.2, self-tested against the RFC 8032 section 7 vectors of all five variants, the Wycheproof Ed25519/Ed448 files and crypto/ed25519) is the oracle for Ed448/Ed448ph and for every verification verdict; "
